@@ -335,4 +335,111 @@ Section Pages.
         with (isort (rcmp m q) (filter (fun r => passes r && true) rows)).
       unfold S, M. f_equal. apply filter_ext. intros r. apply andb_true_r.
   Qed.
+
+  (* ---------- the client's cursor ---------- *)
+  Lemma find_pos_spec : forall A (p : A -> bool) l i k, find_pos p l i = Some k ->
+    exists x, nth_error l (k - i) = Some x /\ p x = true /\ (i <= k)%nat.
+  Proof.
+    intros A p l. induction l as [|y t IH]; intros i k H; simpl in H. discriminate.
+    destruct (p y) eqn:E.
+    - injection H as <-. exists y. rewrite Nat.sub_diag. repeat split; auto.
+    - destruct (IH _ _ H) as (x & Hx & Hp & Hle). exists x. repeat split; auto; try lia.
+      replace (k - i)%nat with (Datatypes.S (k - Datatypes.S i)) by lia. exact Hx.
+  Qed.
+
+  Lemma nth_project : forall y p sf, nth_error (q_sel q) p = Some sf -> nth p (project m q y) VNull = field_value m y (sf_field sf).
+  Proof.
+    intros y p sf H. unfold project. apply nth_error_nth. rewrite nth_error_map, H. reflexivity.
+  Qed.
+
+  Lemma all_some_map_ext : forall A B (g : A -> option B) (h : A -> B) l,
+    (forall x, In x l -> g x = Some (h x)) -> all_some (map g l) = Some (map h l).
+  Proof.
+    intros A B g h l. induction l as [|x t IH]; intros H. reflexivity.
+    simpl. rewrite (H x (or_introl eq_refl)), IH. reflexivity. intros y Hy. apply H. right. exact Hy.
+  Qed.
+
+  Lemma cursor_of_project : forall y, In y S -> cursor_of q (project m q y) = Some (row_keys m q y).
+  Proof.
+    intros y Hy. unfold cursor_of, row_keys. apply all_some_map_ext. intros k Hk.
+    pose proof wfp_parts as W. destruct W as (_ & _ & _ & _ & _ & _ & Hkp & _).
+    assert (Hnn : ref_value m q y (ok_ref k) <> VNull).
+    { pose proof (keys_nonnull y Hy) as Hf. rewrite Forall_forall in Hf. apply Hf. unfold row_keys. apply in_map_iff. exists k. split; auto. }
+    assert (Hval : forall p, key_pos q k = Some p -> nth p (project m q y) VNull = ref_value m q y (ok_ref k)).
+    { intros p Hp. unfold key_pos in Hp. unfold ref_value, ref_field. destruct (ok_ref k) as [i|j].
+      - apply find_pos_spec in Hp. destruct Hp as (sf & Hsf & Hi & _). rewrite Nat.sub_0_r in Hsf.
+        apply Nat.eqb_eq in Hi. rewrite (nth_project y p sf Hsf), Hi. reflexivity.
+      - injection Hp as <-. destruct (nth_error (q_sel q) j) as [sf|] eqn:E.
+        + rewrite (nth_project y j sf E). reflexivity.
+        + simpl. apply nth_overflow. unfold project. rewrite map_length. apply nth_error_None. exact E. }
+    destruct (key_pos q k) as [p|] eqn:Ep. 2: { exfalso. eapply Hkp; eauto. }
+    rewrite (Hval p eq_refl). destruct (ref_value m q y (ok_ref k)); try reflexivity. congruence.
+  Qed.
+
+  Lemma valid_keys : forall y, In y S -> valid_cursor (Some (row_keys m q y)).
+  Proof.
+    intros y Hy. split. rewrite row_keys_length. unfold dirs. apply map_length. apply keys_nonnull. exact Hy.
+  Qed.
+
+  Lemma last_map : forall A B (f : A -> B) l d d', l <> [] -> last (map f l) d' = f (last l d).
+  Proof.
+    intros A B f l d d'. induction l as [|x t IH]; intros H. congruence.
+    destruct t as [|y t]. reflexivity. change (last (map f (x :: y :: t)) d') with (last (map f (y :: t)) d').
+    change (last (x :: y :: t) d) with (last (y :: t) d). apply IH. discriminate.
+  Qed.
+
+  (* after the keys of a member of the strictly sorted result come exactly the rows behind it *)
+  Lemma after_suffix : forall P y T, S = P ++ y :: T -> filter (after (row_keys m q y)) S = T.
+  Proof.
+    intros P y T E. pose proof S_strict as Hs. rewrite E in Hs |- *.
+    apply (strict_after (rcmp m q) (rcmp_antisym m q) P y T Hs).
+  Qed.
+
+  (* ---------- the loop ---------- *)
+  Lemma pages_loop : forall fuel P T cur,
+    S = P ++ T ->
+    match cur with None => P = [] | Some c => exists P' y, P = P' ++ [y] /\ c = row_keys m q y end ->
+    (List.length T < fuel)%nat ->
+    exists pgs, pages (run_query m rows) q ps n fuel cur = (0, pgs) /\ List.concat pgs = map (project m q) T.
+  Proof.
+    induction fuel as [|fuel IH]; intros P T cur ES Hcur Hlen. lia.
+    cbn [pages].
+    assert (Hvc : valid_cursor cur).
+    { destruct cur as [c|]; [|exact I]. destruct Hcur as (P' & y & -> & ->). apply valid_keys.
+      rewrite ES. apply in_or_app. left. apply in_or_app. right. left. reflexivity. }
+    rewrite (page_run cur Hvc), (eval_page cur Hvc).
+    assert (HX : match cur with None => S | Some c => filter (after c) S end = T).
+    { destruct cur as [c|]. destruct Hcur as (P' & y & -> & ->). apply (after_suffix P' y T). rewrite ES, <- app_assoc. reflexivity.
+      subst P. exact ES. }
+    rewrite HX.
+    destruct (Z.to_nat n) as [|k] eqn:Ek. lia.
+    destruct T as [|t0 T']. 
+    - exists []. split; reflexivity.
+    - set (L := firstn (Datatypes.S k) (t0 :: T')).
+      assert (HL : L <> []) by (unfold L; simpl; discriminate).
+      assert (Hmap : map (project m q) L = project m q t0 :: map (project m q) (firstn k T')) by reflexivity.
+      rewrite Hmap. rewrite <- Hmap.
+      rewrite (last_map _ _ (project m q) L t0 [] HL).
+      assert (HinT : In (last L t0) (t0 :: T')).
+      { apply (In_firstn _ (Datatypes.S k)). fold L. destruct (exists_last HL) as (L' & z & ->). rewrite last_last. apply in_or_app. right. left. reflexivity. }
+      assert (HinS : In (last L t0) S) by (rewrite ES; apply in_or_app; right; exact HinT).
+      rewrite (cursor_of_project _ HinS).
+      destruct (IH (P ++ L) (skipn (Datatypes.S k) (t0 :: T')) (Some (row_keys m q (last L t0)))) as (pgs & Hp & Hc).
+      + rewrite ES, <- app_assoc. f_equal. unfold L. symmetry. apply firstn_skipn.
+      + destruct (exists_last HL) as (L' & z & EL). exists (P ++ L'), z. split. rewrite EL, app_assoc. reflexivity.
+        rewrite EL, last_last. reflexivity.
+      + rewrite skipn_length. simpl in Hlen |- *. lia.
+      + rewrite Hp. exists (map (project m q) L :: pgs). split. 
+        * destruct (map (project m q) L) eqn:EmL. { rewrite Hmap in EmL. discriminate. } reflexivity.
+        * cbn [List.concat]. rewrite Hc, <- map_app. unfold L. rewrite firstn_skipn. reflexivity.
+  Qed.
+
+  Theorem pages_complete : forall fuel, (List.length rows < fuel)%nat ->
+    exists pgs full, pages (run_query m rows) q ps n fuel None = (0, pgs) /\ eval m rows q ps = Some full /\ List.concat pgs = full.
+  Proof.
+    intros fuel Hf. destruct (pages_loop fuel [] S None) as (pgs & Hp & Hc). reflexivity. reflexivity.
+    - eapply Nat.le_lt_trans; [|exact Hf]. rewrite <- (Permutation_length S_perm). unfold M.
+      clear. induction rows as [|r t IH]; simpl. lia. destruct (passes r); simpl; lia.
+    - exists pgs, (map (project m q) S). split. exact Hp. split. apply eval_full. exact Hc.
+  Qed.
 End Pages.
